@@ -265,6 +265,10 @@ def value_games(space, kind, cfg):
     if space in SPACE_ALPH:
         n, al = SPACE_ALPH[space]
         return games_T(n, al, cfg)
+    if space == "D7b1":
+        return games_dev(7, cfg, bound=1)
+    if space == "D8b1":
+        return games_dev(8, cfg, bound=1)
     if space == "D7":
         return games_dev(7, cfg)
     if space == "D8":
@@ -276,7 +280,10 @@ def value_games(space, kind, cfg):
     raise KeyError(space)
 
 
-def outcomes_for(n):
+def outcomes_for(n, thin=False):
+    """every weak order (n <= 6) / every tie pattern x generator permutation (n >= 7, and n >= 5 when thin)"""
+    if thin and n >= 5:
+        return list(outcomes_big(n))
     return weak_orders(n) if n <= 6 else list(outcomes_big(n))
 
 
@@ -297,7 +304,7 @@ def pred_games(space, cfg):
         yield from games_P2(cfg)
         return
     tab = {"G3": (3, V28), "G4": (4, V12), "G5": (5, V6), "G6": (6, V4), "G7": (7, V3), "G8": (8, V3),
-           "G4|V6": (4, V6), "G5|V4": (5, V4), "G3|V12": (3, V12)}
+           "G4|V6": (4, V6), "G5|V4": (5, V4), "G3|V12": (3, V12), "G6|V2": (6, V2), "G7|V2": (7, V2)}
     if space in tab:
         n, al = tab[space]
         yield from games_T(n, al, cfg)
